@@ -205,7 +205,27 @@ def _font_getitem(ex, st, self, idx, node):
     if is_const(idx) and idx.py == "post":
         ex.safety(st, _font_has(ex, st, self, idx), "KeyError", node)
         return ex.read_field(st, self, "post")
-    raise Unsupported(f"PPFont[{idx}]: only the 'post' table object is modelled", node)
+    if is_const(idx) and idx.py in ("CFF ", "CFF2"):
+        ex.safety(st, _font_has(ex, st, self, idx), "KeyError", node)
+        return _cff_table(ex, st, self, idx.py == "CFF ")
+    idx = ex.deopt(idx, st, node)
+    if idx.ty == STR and not idx.is_py:
+        # a computed tag (rename_glyphs: `otf[cff_tag]`): one of the two CFF tables; KeyError unless that table is present
+        t = lift(idx, STR)
+        is1, is2 = t == z3.StringVal("CFF "), t == z3.StringVal("CFF2")
+        ex.safety(st, z3.Or(z3.And(is1, _font_has(ex, st, self, Val.const("CFF "))), z3.And(is2, _font_has(ex, st, self, Val.const("CFF2")))), "KeyError", node)
+        a, b = _cff_table(ex, st, self, True), _cff_table(ex, st, self, False)
+        return Val(Ref("PPCFFTable"), z3.If(is1, a.term, b.term))
+    raise Unsupported(f"PPFont[{idx}]: only the 'post', 'CFF ' and 'CFF2' table objects are modelled", node)
+
+
+def _cff_table(ex, st, self, cff1):
+    """the (decompiled) 'CFF ' / 'CFF2' table object of the font.  fontTools: a CFF table holds exactly one font
+    (`assert len(self.cff) == 1` in table_C_F_F_.decompile), so `cff.topDictIndex[0]` exists."""
+    t = ex.read_field(st, self, "cff_table" if cff1 else "cff2_table")
+    tops = ex.read_field(st, ex.read_field(st, t, "cff"), "topDictIndex")
+    st.assume(z3.Length(tops.term) >= 1)
+    return t
 
 
 def _font_get(ex, st, self, args, kwargs, node):
@@ -242,12 +262,35 @@ cls(
     truth=lambda ex, st, v: ex.read_field(st, v, "present").term,
     notes="fontTools 'post' table object: formatType, extraNames, mapping (attributes may be absent: has_*)",
 )
+cls("PPCharString", notes="a T2CharString object (opaque: only its identity matters here)")
+cls("PPCharStrings", fields={"charStrings": Dict(STR, Ref("PPCharString"))}, notes="cffLib CharStrings: charStrings = glyph name -> charstring")
+cls("PPTopDict", fields={"CharStrings": Ref("PPCharStrings"), "charset": List(STR)}, notes="cffLib TopDict: CharStrings, charset (glyph names in glyph-index order)")
+cls("PPCFFFontSet", fields={"topDictIndex": List(Ref("PPTopDict"))}, notes="cffLib CFFFontSet: topDictIndex")
+cls("PPCFFTable", fields={"cff": Ref("PPCFFFontSet")}, notes="fontTools 'CFF ' / 'CFF2' table object: cff")
+
+
+def _font_cff_top(ex, st, self):
+    """the top dict whose names rename_glyphs rewrites: that of the 'CFF ' table when present, else of 'CFF2'"""
+    a = ex.read_field(st, ex.read_field(st, ex.read_field(st, self, "cff_table"), "cff"), "topDictIndex")
+    b = ex.read_field(st, ex.read_field(st, ex.read_field(st, self, "cff2_table"), "cff"), "topDictIndex")
+    from pyvc.core import seq_nth
+
+    return Val(Ref("PPTopDict"), z3.If(ex.read_field(st, self, "has_CFF").term, seq_nth(a.term, z3.IntVal(0)), seq_nth(b.term, z3.IntVal(0))))
+
+
+def _native_cff_top(o):
+    tag = "CFF " if "CFF " in o else "CFF2"
+    return o[tag].cff.topDictIndex[0]
+
+
 cls(
     "PPFont",
     fields={
         "glyphOrder": List(STR), "pristine": BOOL, "has_post": BOOL, "has_CFF": BOOL, "has_CFF2": BOOL, "CFF2_loaded": BOOL,
-        "post": Ref("PPPost"),
+        "post": Ref("PPPost"), "cff_table": Ref("PPCFFTable"), "cff2_table": Ref("PPCFFTable"),
     },
+    derived={"cff_top": _font_cff_top},
+    views={"cff_top": _native_cff_top},
     methods={"getGlyphOrder": _order_iter, "setGlyphOrder": _set_order, "get": _font_get, "isLoaded": _font_isloaded},
     contains=_font_contains,
     getitem=_font_getitem,
